@@ -269,7 +269,9 @@ def nii_digest(nii):
         st = None
     h = hashlib.sha256()
     h.update(np.ascontiguousarray(np.asanyarray(nii.dataobj)).tobytes())
-    h.update(np.ascontiguousarray(nii.affine).tobytes())
+    # the affine as a NIfTI file stores it (float32): an image written and read back digests like
+    # the one in memory
+    h.update(np.ascontiguousarray(np.asarray(nii.affine, dtype=np.float32)).tobytes())
     h.update(json.dumps([list(map(str, hdr.get_dim_info())), [float(x) for x in hdr['pixdim']], st,
                          str(nii.get_data_dtype()), list(nii.shape), ext]).encode())
     return h.hexdigest()
@@ -556,6 +558,32 @@ def grid_round(rep, r, tier):
                             {'tag': 'grid:add-state:' + name, 'suite': 'grid', 'series': series, 'probe': name})
             if got == 'ok':
                 st, _ = G.new_stack(series)
+    # ---- explicit ordering whose element is absent from the files (ordinate None): a second file for
+    # an occupied cell is still refused
+    for ci in range({'quick': 6, 'thorough': 60}[tier]):
+        ordering = r.choice(['explicit', 'explicit_tv'])
+        series = G.gen_series(r, tier, S=r.choice([1, 2, 3]), T=1, V=1, ordering='explicit')
+        series['ordering'] = ordering          # the stack is built with time_order (and vector_order)
+        drop = r.choice([['EchoTime'], ['EchoTime', 'FlipAngle']]) if ordering == 'explicit_tv' else ['EchoTime']
+        for f in series['files']:
+            for k in drop:
+                f['meta'].pop(k, None)
+        st, _ = G.new_stack(series)
+        f2 = dict(series['files'][r.randrange(len(series['files']))], id=998, base=9)
+        rep.evaluations += 1
+        rep.count('add/collision_key_absent')
+        rep.nontriv([ci, 'add', 'collision_key_absent', ordering, drop])
+        try:
+            with warnings.catch_warnings():
+                warnings.simplefilter('ignore')
+                st.add_dcm(G.dataset_of(series, f2))
+            got = 'ok'
+        except Exception as e:
+            got = type(e).__name__
+        if got != 'ImageCollisionError':
+            rep.failure('explicit ordering (%s) whose element %s is absent from the files: a second file for an occupied cell: %s, expected ImageCollisionError'
+                        % (ordering, drop, got),
+                        {'tag': 'grid:add:collision_key_absent', 'suite': 'grid', 'series': series, 'probe': 'collision_key_absent'})
     # empty stack
     import dcmstack
     q = queries(dcmstack.DicomStack())
@@ -793,7 +821,7 @@ def history_correspondence(rep, r, tier):
 THEOREMS = {
     'C01': ['C01.convert_lookup_key', 'C01.convert_lookup_key_4d', 'C01.convert_lookup_key_3d',
             'C01.convert_canonical_key', 'C01.meta_follows_flipped_data', 'C01.fill_index_in_range',
-            'C01.fill_index_injective'],
+            'C01.fill_index_injective', 'C01.convert_total', 'C01.convert_total_4d', 'C01.convert_total_3d'],
     'C02': ['C02.fill_index_in_range', 'C02.fill_index_injective', 'C02.flipped_data_same_files',
             'C02.canonical_order_unique', 'C02.reorient_transform_maps_back', 'C02.order_change_is_signed_perm',
             'C02.reorder_shape_perm', 'C02.axes_follow_permutation', 'C02.reordered_affine_orientation'],
